@@ -38,6 +38,10 @@ ASSUMPTIONS = [
 STATIC_SAMPLES = [["add Ea1", "add Ea2 fail", "remove pos1"]]
 
 
+class UserString(String):
+    """A user's subclass of String."""
+
+
 class UserEntry(Entry):
     """A user-defined subclass: it is an Entry for every clause of the property."""
 
@@ -45,12 +49,12 @@ class UserEntry(Entry):
 def universe(tier):
     u = {
         "Ea1": lambda: Entry("article", "a", [Field("t", "1")]),
-        "Ea2": lambda: Entry("book", "a", [Field("u", "2")]),
+        "Ea2": lambda: UserEntry("book", "a", [Field("u", "2")]),  # (a user subclass colliding with plain entries, both orders)
         "Ea1t": lambda: Entry("article", "a", [Field("t", "1")]),  # structurally equal twin of Ea1
         "Eb": lambda: UserEntry("article", "b", []),
         "E0": lambda: Entry("misc", "", [Field("n", "0")]),  # the empty key is a key like any other
         "Sa": lambda: String("a", "x"),
-        "Sa2": lambda: String("a", "y"),
+        "Sa2": lambda: UserString("a", "y"),
     }
     u["P"] = lambda: Preamble("p")
     if tier == "thorough":
